@@ -262,6 +262,11 @@ SAN_ENV = {
     'TSAN_OPTIONS': 'exitcode=95:halt_on_error=1:second_deadlock_stack=1',
 }
 
+# long campaigns: ASan's stack depot of allocation contexts grows without bound with 30-frame contexts over
+# hundreds of thousands of generated cases (10 GB per shard observed); 8 frames keep a shard near 450 MB. Replays and
+# judging keep the default depth for full reports.
+LONG_RUN_ASAN = ':malloc_context_size=8'
+
 
 def run_proc(cmd, env=None, timeout=None, cwd=None):
     e = dict(os.environ)
@@ -477,6 +482,7 @@ class PropRunner:
             s = derive_seed(self.seed, self.prop + label, i)
             env = dict(os.environ)
             env.update(SAN_ENV)
+            env['ASAN_OPTIONS'] += LONG_RUN_ASAN
             env['RC_PARAMS'] = 'seed=%d max_success=%d max_size=%d max_discard_ratio=50' % (s, n, size)
             if extra_env:
                 env.update(extra_env)
@@ -569,6 +575,7 @@ class PropRunner:
                     return
                 env = dict(os.environ)
                 env.update(SAN_ENV)
+                env['ASAN_OPTIONS'] += LONG_RUN_ASAN
                 if extra_env:
                     env.update(extra_env)
                 env['VP_SLICE'] = '%d/%d' % (i, shards)
@@ -674,6 +681,7 @@ class PropRunner:
                 shutil.copy(f, work + '/corpus/')
             env = dict(os.environ)
             env.update(SAN_ENV)
+            env['ASAN_OPTIONS'] += LONG_RUN_ASAN
             env['VP_FUZZ_STATS'] = work + '/stats.json'
             if extra_env:
                 env.update(extra_env)
